@@ -3,10 +3,11 @@
 (* Property C17: grounded predicates are materialised faithfully and       *)
 (* re-running is idempotent (DESIGN.md A.7).                               *)
 (*                                                                         *)
-(* State: the persistent attached SQLite file (a bag of rows per table),   *)
-(* the rows returned by the last run, the program version in force.  The   *)
+(* State: the persistent attached SQLite files together (`file`: a bag of  *)
+(* rows per "alias.table", alias = the name a file is attached under), the  *)
+(* rows returned by the last run, the program version in force.  The       *)
 (* ':memory:' dataset of A.7 is not modelled: it dies with every run and    *)
-(* the property quantifies over runs against ONE persistent file.           *)
+(* the property quantifies over runs against persistent files.              *)
 (*                                                                         *)
 (* Actions (the environment of `logica.py <file> run <p>`):                *)
 (*   Run(p)            p is any predicate of the version in force;         *)
